@@ -29,10 +29,11 @@ VARIABLES
   \* @type: Str;
   key
 
-CharKeys    == {"j", "k", "g", "q", "a", "c", "v", ".", "f", "l", "-", "/", "x", "U+00E9", "U+65E5"}
-SpecialKeys == {"Esc", "Enter", "Backspace", "Up", "Down", "Home", "PageUp"}
+CharKeys    == {"j", "k", "g", "q", "a", "c", "v", ".", "f", "l", "-", "/", "x", "U+00E9", "U+65E5", "G", "J", "K", "Q"}
+SpecialKeys == {"Esc", "Enter", "Backspace", "Up", "Down", "Home", "PageUp", "End", "PageDown", "Tab", "Delete", "Left", "F1"}
 Keys        == CharKeys \union SpecialKeys \union {"Tick"}
-QuitKeys    == {"q", "Esc"}
+QuitKeys    == {"q", "Q", "Esc"}
+BoundQuit   == {"q", "Esc"}
 SearchKeys  == {"/", "Enter", "Esc"}
 SortKeys    == {"a", "c", "v", ".", "f", "l"}
 SortNames   == {"CALLSIGN", "ALTITUDE", "VRATE", "COUNT", "FIRST", "LAST"}
@@ -52,7 +53,7 @@ Init == /\ n \in Nat /\ sel = 0 /\ quit = FALSE /\ search = FALSE /\ qlen = 0
 Press(k) ==
   /\ key' = k /\ n' = n
   /\ IF k = "Tick" THEN
-       /\ width' \in {80, 132}
+       /\ width' \in {0, 20, 80, 132}
        /\ UNCHANGED <<sel, quit, search, qlen, sortKey, sortAsc>>
      ELSE IF search /\ k \in EditKeys THEN
        /\ qlen' = (IF k \in CharKeys THEN qlen + 1
@@ -63,7 +64,7 @@ Press(k) ==
      ELSE
        /\ sel' = (IF k \in {"j", "Down"} THEN Down1 ELSE IF k \in {"k", "Up"} THEN Up1
                   ELSE IF k \in {"g", "PageUp", "Home"} THEN 0 ELSE sel)
-       /\ quit' = (IF k \in QuitKeys THEN TRUE ELSE quit)
+       /\ quit' = (IF k \in BoundQuit THEN TRUE ELSE quit)
        /\ sortKey' = (IF k \in SortKeys THEN SortOf(k) ELSE sortKey)
        /\ sortAsc' = (IF k = "-" THEN ~sortAsc ELSE sortAsc)
        /\ search' = (IF k = "/" THEN TRUE ELSE search)
@@ -73,11 +74,11 @@ Next == \E k \in Keys : Press(k)
 
 InRange == IF n = 0 THEN sel = 0 ELSE (sel >= 0 /\ sel < n)
 IndInv == /\ n >= 0 /\ qlen >= 0 /\ InRange
-          /\ sortKey \in SortNames /\ width \in {80, 100, 132}
+          /\ sortKey \in SortNames /\ width \in {0, 20, 80, 100, 132}
 
 (* any state satisfying the invariant (not only reachable ones)            *)
 IndInit == /\ n \in Nat /\ sel \in Int /\ quit \in BOOLEAN /\ search \in BOOLEAN /\ qlen \in Nat
-           /\ sortKey \in SortNames /\ sortAsc \in BOOLEAN /\ width \in {80, 100, 132}
+           /\ sortKey \in SortNames /\ sortAsc \in BOOLEAN /\ width \in {0, 20, 80, 100, 132}
            /\ key \in Keys \union {"none"}
            /\ IndInv
 
